@@ -166,7 +166,7 @@ MULT_FUNCS = ("PointJacobi.__mul__", "PointJacobi.__rmul__", "PointJacobi.mul_ad
 def rule(chk, W, rid, pid, funcs, floor):
     uses, examined, safety = unsafe_uses(W, funcs)
     chk.floor(rid, "uses of possibly-identity results as receivers", examined, floor)
-    chk.floor(rid, "methods of the legacy Point classified identity-safe / unsafe", len(safety), 10)
+    chk.floor(rid, "methods of the legacy Point classified identity-safe / unsafe", len(safety), 8)
     if safety.get("__neg__", (True,))[0] or not safety.get("__add__", (False,))[0]:
         pass  # classification changed: reported through the uses below
     seen = set()
